@@ -90,6 +90,12 @@ def run_case(arg):
         roots_abs = [fse(os.path.join(troot, rt)) for rt in roots]
         home = os.path.join(d, "home")
         o = C06.sample_opts(r, len(roots), sym)
+        if o.get("isolate") and len(roots) > 1 and r.random() < 0.6:
+            # the roots in another order than their names sort: "roots in the order given" is about the command line
+            order = list(range(len(roots)))
+            r.shuffle(order)
+            roots = [roots[k] for k in order]
+            roots_abs = [roots_abs[k] for k in order]
         if o.get("isolate") and o.get("symbolic_links") and os.path.isdir(os.path.join(troot, "y")) and r.random() < 0.6:
             # one more input path: a symbolic link to a file outside the other roots (reported under the link's name,
             # below no --isolate root: a replica of its own)
